@@ -27,9 +27,7 @@ func zzCount(slots []*zzSlot, v6 bool, pred func(s *zzSlot) bool) int {
 func ZZ_C06_dispose() {
 	sh := zz.Shard(8) // IPv6 address present x request pending x trunk interface
 	n4, n6 := 2, sh%2
-	if zz.Tier() > 0 {
-		n4 = 3
-	}
+	// (three IPv4 addresses exceed the 200k-path budget per shard in either tier)
 	f := zzNewFactory(false)
 	l, slots := zzPool(n4, n6, f)
 	zz.Assume(zzInv(slots))
